@@ -5,6 +5,7 @@ import (
 	"fmt"
 	"io"
 	"math/big"
+	"sort"
 	"strings"
 
 	"github.com/itchyny/go-yaml"
@@ -45,31 +46,54 @@ func (m *yamlMarshaler) marshal(v any, w io.Writer) error {
 	} else {
 		enc.SetIndent(2)
 	}
-	if err := enc.Encode(bigIntToNumber(v)); err != nil {
+	n, err := toYAMLNode(v)
+	if err != nil {
+		return err
+	}
+	if err := enc.Encode(n); err != nil {
 		return err
 	}
 	return enc.Close()
 }
 
-// The YAML encoder writes *big.Int as a quoted string, so convert it to
-// json.Number, which is written as is. The value is not modified.
-func bigIntToNumber(v any) any {
+// The YAML encoder sorts the keys of a map in its own natural order ("9"
+// before "10") and writes *big.Int as a quoted string, so build the nodes
+// of objects with the keys in the order of keys, and convert *big.Int to
+// json.Number, which is written as is.
+func toYAMLNode(v any) (*yaml.Node, error) {
+	n := new(yaml.Node)
 	switch v := v.(type) {
-	case *big.Int:
-		return json.Number(v.String())
-	case []any:
-		w := make([]any, len(v))
-		for i, v := range v {
-			w[i] = bigIntToNumber(v)
-		}
-		return w
 	case map[string]any:
-		w := make(map[string]any, len(v))
-		for k, v := range v {
-			w[k] = bigIntToNumber(v)
+		keys := make([]string, 0, len(v))
+		for k := range v {
+			keys = append(keys, k)
 		}
-		return w
+		sort.Strings(keys)
+		n.Kind = yaml.MappingNode
+		for _, k := range keys {
+			key := new(yaml.Node)
+			if err := key.Encode(k); err != nil {
+				return nil, err
+			}
+			val, err := toYAMLNode(v[k])
+			if err != nil {
+				return nil, err
+			}
+			n.Content = append(n.Content, key, val)
+		}
+	case []any:
+		n.Kind = yaml.SequenceNode
+		for _, v := range v {
+			val, err := toYAMLNode(v)
+			if err != nil {
+				return nil, err
+			}
+			n.Content = append(n.Content, val)
+		}
+	case *big.Int:
+		return n, n.Encode(json.Number(v.String()))
 	default:
-		return v
+		return n, n.Encode(v)
 	}
+	return n, nil
 }
